@@ -923,18 +923,42 @@ fn shell_obs(stdout: &[u8], status: i32, tree: &str) -> String {
     format!("out={} st={} T {}", enc_bytes(stdout), status, tree)
 }
 
+type VEnv = yash_env::Env<Rc<yash_env::system::Concurrent<VirtualSystem>>>;
+
+/// The tail of `yash_cli::run_as_shell_process`: read-eval loop, result, EXIT trap
+/// (same as the private `yverif::shell::eval_source`).
+async fn eval_source(env: &mut VEnv, source: &yash_cli::startup::args::Source) -> i32 {
+    use std::ops::ControlFlow::{Break, Continue};
+    use yash_env::semantics::Divert;
+    let ref_env = RefCell::new(env);
+    let lexer = match yash_cli::startup::input::prepare_input(&ref_env, source).await {
+        Ok(lexer) => lexer,
+        Err(_) => return 127,
+    };
+    let result = yash_semantics::read_eval_loop(&ref_env, &mut { lexer }).await;
+    let env = ref_env.into_inner();
+    env.apply_result(result);
+    match result {
+        Continue(())
+        | Break(Divert::Continue { .. })
+        | Break(Divert::Break { .. })
+        | Break(Divert::Return(_))
+        | Break(Divert::Interrupt(_))
+        | Break(Divert::Exit(_)) => yash_semantics::trap::run_exit_trap(env).await,
+        Break(Divert::Abort(_)) => (),
+    }
+    env.exit_status.0
+}
+
 /// The shell on the virtual system, wired as in `yverif::shell::run_with` (= `yash-cli`), with one
 /// difference that `run_with` offers no hook for: the shell process gets the absolute working
 /// directory `/` *before* start-up (a `VirtualSystem::new()` process has the empty path as its cwd,
 /// which no real process can have; start-up reads it to initialise `$PWD`).
 fn shell_virtual(script: &str) -> String {
     use std::cell::Cell;
-    use std::ops::ControlFlow::{Break, Continue};
     use yash_cli::startup::args::{InitFile, Run, Source, Work};
     use yash_cli::startup::configure_environment;
-    use yash_cli::startup::input::prepare_input;
     use yash_env::Env;
-    use yash_env::semantics::Divert;
     use yash_env::system::Concurrent;
 
     let system = VirtualSystem::new();
@@ -958,26 +982,7 @@ fn shell_virtual(script: &str) -> String {
             positional_params: vec![],
         };
         let work = configure_environment(&mut env, run).await;
-        let ref_env = RefCell::new(&mut env);
-        let prepared = prepare_input(&ref_env, &work.source).await;
-        let status = match prepared {
-            Err(_) => 127,
-            Ok(lexer) => {
-                let result = yash_semantics::read_eval_loop(&ref_env, &mut { lexer }).await;
-                let env = ref_env.into_inner();
-                env.apply_result(result);
-                match result {
-                    Continue(())
-                    | Break(Divert::Continue { .. })
-                    | Break(Divert::Break { .. })
-                    | Break(Divert::Return(_))
-                    | Break(Divert::Interrupt(_))
-                    | Break(Divert::Exit(_)) => yash_semantics::trap::run_exit_trap(env).await,
-                    Break(Divert::Abort(_)) => (),
-                }
-                env.exit_status.0
-            }
-        };
+        let status = eval_source(&mut env, &work.source).await;
         result2.set(Some(status));
     };
     let runner = async move { concurrent.run_virtual(main).await };
